@@ -74,6 +74,27 @@ Theorem c13_all_filters : forall dom dec kind payload,
               (reference dom dec tstate (cstep kind payload) s0 h)).
 Proof. intros. now apply traces_filters_commute. Qed.
 
+(* 4c. identical text: the text of a trace is a function of the tables before its decoding and of its window; given the
+      read-set closure (for a requested trace, the records that are not fed are not read - c13_closed with
+      c13_bsd_feeds_lookups and the always-fed trace / sampler classes), the texts of the filtered request are the texts
+      of the selected traces of the unfiltered run *)
+Theorem c13_identical_text : forall dom dec kind payload (T : Type) (text : tstate -> list pev -> T),
+  (forall c, kind c <> 0 -> cls c = DBG_TRACE \/ cls c = DBG_PERF) ->
+  forall cfg s0 h,
+  (forall s e w, headed (e, w) -> requested cfg (p_code e) = true -> text s (filter (P (fed cfg)) w) = text s w) ->
+  map (text_of tstate T text) (pipeline dom dec tstate (cstep kind payload) cproc_ok cfg s0 h)
+  = map (text_of tstate T text)
+        (filter (fun x => requested cfg (p_code (fst (fst x))) && keepT tstate cfg x && keepP tstate cproc_ok cfg x)
+                (reference dom dec tstate (cstep kind payload) s0 h)).
+Proof.
+  intros dom dec kind payload T text HK cfg s0 h HT.
+  apply (pipeline_texts dom dec tstate (cstep kind payload) cproc_ok (cwriter kind)).
+  - apply cstep_nonwriter.
+  - apply cstep_restrict.
+  - intros c Hc. now apply (writers_fed kind HK).
+  - exact HT.
+Qed.
+
 Definition table_writers : list string :=
   ["TRACE_DATA_NEWTHREAD"; "TRACE_DATA_EXEC"; "TRACE_STRING_NEWTHREAD"; "TRACE_STRING_EXEC";
    "TRACE_DATA_THREAD_TERMINATE_PID"; "PERF_THD_Data"; "PERF_Event"]%string.
